@@ -218,6 +218,7 @@ class GeminiClientProtocol(asyncio.Protocol):
             meta=self.meta,  # type: ignore
             body=body,
             url=self.url,
+            raw_body=self.buffer if body is not None else None,
         )
         self.response_future.set_result(response)
 
@@ -458,6 +459,7 @@ class TitanClientProtocol(asyncio.Protocol):
             meta=self.meta,  # type: ignore
             body=body,
             url=self.titan_url,
+            raw_body=self.buffer if body is not None else None,
         )
         self.response_future.set_result(response)
 
